@@ -21,8 +21,9 @@ func init() {
 		ID: "C13", Run: func(ctx *harness.Ctx) { runLexProps(ctx, oracleC13) }, Oracle: oracleC13, Minimize: true,
 		Rule: "cases: every string of length <=5 (quick) / <=6 (thorough) over the 24-symbol alphabet " + fmt.Sprintf("%q", lexAlphabet) +
 			", every sequence of <=4 (quick) / <=5 (thorough) lexical words (identifiers, keywords, numbers, literals, dots, brackets, comments), " +
-			"every string <=5 / <=6 over a numeric alphabet, a literal matrix (prefix x quote form x escape x position), random literal/number/soup strings " +
-			"and rendered generator sentences. Checked: tiling, Raw==input[Pos:End], ordering, whitespace-only Space, complete comments, no empty token, sticky <eof>; " +
+			"every string <=5 / <=6 over a numeric alphabet, every string <=8 / <=9 over the comment alphabet \"/*a \\n-#\", every sequence of <=4 / <=5 white-space symbols, " +
+			"every Unicode scalar value and lone high byte in trivia position, a literal matrix (prefix x quote form x escape x position), random literal/number/soup strings, " +
+			"inputs of 1-4097 lines and rendered generator sentences. Checked: tiling, Raw==input[Pos:End], ordering, whitespace-only Space, complete comments, no empty token, sticky <eof>; " +
 			"the recovery-mode lexer (verif hook) must tile every input and equal NextToken on accepted input. " +
 			"Non-trivial = >=2 tokens, or a literal/comment, or a rejected string; distinct by input hash.",
 		Assumptions: []string{"a comment is complete when '#', '--', '//' runs to newline/EOF or '/*' is closed by a '*/' that starts after the 2-byte opener"},
